@@ -48,6 +48,37 @@ def queue_of(fn, node):
     return None
 
 
+def record_initialised(R, P, fns):
+    """CANCEL-NODE/initialised: the cancellation record handed to the scheduler thread has every field written by the request:
+    it comes from the zeroing allocation, or each of its fields (the link excepted - the push writes it) is stored on every
+    path before the push.  A field left as the allocator returned it (`removed_from_scheduling_queue`) is read by the scheduler
+    thread as whatever the recycled block held: a cancel that came too late then cancels the task a second time."""
+    f = fns["aws_thread_scheduler_cancel_task"]
+    allocs = f.calls({"aws_mem_calloc", "aws_mem_acquire"})
+    pushes = [e for e in f.calls("aws_linked_list_push_back") if "cancel_queue" in f.show(e.node)]
+    if not R.require(len(allocs) == 1 and len(pushes) == 1, "cancel_task: the record's allocation / its push to the cancel queue not found"):
+        return
+    if allocs[0].node["callee"] == "aws_mem_calloc":
+        R.ok("CANCEL-NODE", "record-fully-initialised", where(f, allocs[0]), "the record comes from the zeroing allocation")
+        return
+    rec = None
+    for e in f.field_accesses(modes=("w",)):
+        if e.node.get("rec") and "cancel" in e.node["rec"]:
+            rec = e.node["rec"]
+    fields = [fd["n"] for fd in (P.records.get(rec) or {}).get("fields", [])] if rec else []
+    dom = dominators(f)
+    missing = []
+    for fd in fields:
+        ft = [e for e in f.field_accesses(rec=rec, field=fd, modes=("w",))]
+        is_link = any(e2.node.get("rec") == rec and e2.node["f"] == fd for e2 in f.field_accesses(rec=rec, field=fd, modes=("addr",)) if True) and not ft
+        if is_link:
+            continue
+        if not any(ev_dominates(f, w, pushes[0], dom) for w in ft):
+            missing.append(fd)
+    R.check(bool(fields) and not missing, "CANCEL-NODE", "record-fully-initialised", where(f, allocs[0]), "every field of the record is stored on every path before it is queued",
+            "the cancellation record comes from %s and its field(s) %s are not stored on every path before it is queued: the scheduler thread reads what the recycled block held" % (allocs[0].node["callee"], missing))
+
+
 def analyse(ctx, replace=None, only=None):
     R = ctx.R
     P = ctx.program([FILE, "source/task_scheduler.c", "source/ref_count.c"], "ship", replace=replace)
@@ -62,6 +93,7 @@ def analyse(ctx, replace=None, only=None):
     R.require("aws_thread_scheduler" in P.records and any(f["n"] == "thread_data" for f in P.records["aws_thread_scheduler"]["fields"]),
               "struct aws_thread_scheduler.thread_data not found")
 
+    record_initialised(R, P, fns)
     helpers = record_helpers(fns)
     # ------------------------------------------------------------------ LOCK
     n_acc = 0
@@ -829,6 +861,7 @@ def noblock(R, fns, helpers=None):
 
 
 MUTANTS = [
+    {"name": "cancel-record-from-the-non-zeroing-allocation", "file": FILE, "expect": "CANCEL-NODE", "old": "        aws_mem_calloc(scheduler->allocator, 1, sizeof(struct cancellation_node));", "new": "        aws_mem_acquire(scheduler->allocator, sizeof(struct cancellation_node));"},
     {"name": "thread-launched-with-callers-join-strategy", "file": FILE, "expect": "SHUTDOWN-ORDER", "old": "    launch_options.join_strategy = AWS_TJS_MANUAL;\n", "new": ""},
     {"name": "release-fast-path-load-then-store", "file": "source/ref_count.c", "expect": "SHUTDOWN-ORDER",
      "old": "    size_t old_value = aws_atomic_fetch_sub(&ref_count->ref_count, 1);\n    AWS_ASSERT(old_value > 0 && \"refcount has gone negative\");\n    if (old_value == 1) {\n        ref_count->on_zero_fn(ref_count->object);\n    }",
